@@ -136,6 +136,11 @@ def reference_mask(seed, K, F, T, kind):
     for _ in range(200):
         if kind == 'binaryish':
             m = r.integers(0, 3, size=(K, F, T)).astype(float) + 0.25 * np.arange(K)[:, None, None]
+        elif kind == 'antipodal':
+            # signed reference whose first two class rows are exact negatives of each other (distinct rows)
+            m = r.standard_normal((K, F, T))
+            if K >= 2:
+                m[1] = -m[0]
         else:
             m = r.uniform(0.05, 1.0, size=(K, F, T))
         if kind == 'near_equal' and K >= 2:
@@ -165,6 +170,8 @@ def run_fields(key):
         metrics = ('euclidean',)
     elif kind == 'near_equal':
         metrics = ('euclidean',)
+    elif kind == 'antipodal' and T == 1:
+        metrics = ('euclidean', 'multiply')
     else:
         metrics = ('cos', 'euclidean', 'multiply')
     ref = reference_mask(seed, K, F, T, kind)
@@ -337,7 +344,7 @@ def subchecks(tier, seed):
         for K in (2, 3):
             for F in (1, 3):
                 for T in (1, 2, 3):
-                    for kind in ('generic', 'binaryish', 'near_equal'):
+                    for kind in ('generic', 'binaryish', 'near_equal', 'antipodal'):
                         yield (K, F, T, kind, 'all', seed)
         for kind in ('generic', 'near_equal'):
             yield (4, 5, 3, kind, 'two_bins', seed)
